@@ -93,9 +93,34 @@ class Runner:
             res = "ok:%s:%s" % (priv.hex(), pub.hex())
         else:
             m = re.search(r"panicked at mlar/src/main\.rs:(\d+)", err)
-            res = "crash:%s" % m.group(1) if m else "rc:%d" % rc
+            res = "crash:%s" % site_label(int(m.group(1))) if m else "rc:%d" % rc
         shutil.rmtree(d, ignore_errors=True)
         return res
+
+
+# The model names a panic site after its line in mlar/src/main.rs at the pinned commit
+# (Derive.v SITE_MAIN_<line>); edits elsewhere in main.rs move the lines, so the panicking line
+# reported by the binary is classified by what the source says there, not by its number.
+SITE_TEXT = [
+    ("Unable to read the private key", "867"),
+    ("At least one path must be provided", "873"),
+    ("parse_openssl_25519_privkey(&key_pair", "880"),
+    ("key_pair.unwrap()", "884"),
+    ("Sha512::digest(seed", "816"),
+]
+
+
+def site_label(line):
+    try:
+        src = open(os.path.join(REPO, "mlar/src/main.rs")).read().split("\n")
+    except OSError:
+        return str(line)
+    for k in (line - 1, line - 2, line):
+        if 0 <= k < len(src):
+            for text, label in SITE_TEXT:
+                if text in src[k]:
+                    return label
+    return str(line)
 
 
 def coq_str(h):
